@@ -92,6 +92,14 @@ new.append(ob("C17.x.select", "pkg/gi", "VerifC17Select", cases1(range(9)), case
               "the reflect.Select path for more than 8 channels / foreign channel types (reflect is not modelled). " + MODEL + ". " + ONE % "",
               ["chose1", "chose2", "badclause", "noforms", "timeout"]))
 
+new.append(ob("C17.x.select-two", "pkg/gi", "VerifC17SelectTwo", cases1(range(4)), cases1(range(4)),
+              "two (three) routines started by gi:run from the same scope wait in gi:select on one channel; the clause body blocks on an unbuffered gate "
+              "channel between receiving the item and forwarding it, so every routine holds a received item while the others receive theirs: the "
+              "forwarded items are a permutation of the pushed ones (symbolic 32-bit payloads, multiset equality decided by the solver) - the clause "
+              "variable must belong to the evaluation of the select, not to the scope the routines share. Variants: 2 consumers, 3 consumers, a second "
+              "never-ready clause, consumers started from a dotimes. " + MODEL + ". " + ONE % "",
+              ["forwarded"]))
+
 new.append(ob("C17.x.mutex-exit", "pkg/gi", "VerifC17MutexExit", cases1(range(7)), cases1(range(7)),
               "with-mutex-lock leaves the mutex free after a normal exit, a return-from out of the body, an error in the body caught outside by ignore-errors "
               "or gi:recover, an error under unwind-protect, a non-mutex argument (condition, nothing locked) and an empty body: the same mutex is taken "
